@@ -2874,4 +2874,106 @@ theorem verifyRRSIGErr_ok (zone : Bytes) (m : VMsg)
             exact (key (rrKey r)).mpr (hall r hr)
 end
 
+/-! ### the error VerifyDS surfaces -/
+
+/-- `lastErr` is unset or one of the two per-record errors. -/
+def GoodLast (last : Option DErr) : Prop := last = none ∨ last = some DErr.missingKSK ∨ last = some DErr.mismatchingDS
+
+theorem goodLast_getD (last : Option DErr) (h : GoodLast last) :
+    last.getD DErr.missingKSK ≠ DErr.ok ∧ last.getD DErr.missingKSK ≠ DErr.unsupported := by
+  rcases h with rfl | rfl | rfl <;> simp
+
+section
+variable (sup : DSRec → Bool) (dmatch : DKey → Nat → Bytes → Bool) (limit : Nat) (keys : List DKey)
+
+theorem dsAuth_via_sorted (d : DSRec) (hdm : ∀ k k' dt w, dkeyIdent k = dkeyIdent k' → dmatch k dt w = dmatch k' dt w)
+    (hs : sup d = true) (want : Bytes) (hd : hexDecode d.digest = some want) (hw : want.isEmpty = false) :
+    (uniqueSortedDKeys (keys.filter (usableDSCandidate limit d))).any (fun k => dmatch k d.dt want) =
+      dsAuthenticates sup dmatch limit keys d := by
+  unfold dsAuthenticates
+  simp only [hs, hd, hw, Bool.not_false, Bool.true_and]
+  apply Bool.eq_iff_iff.mpr
+  rw [List.any_eq_true, List.any_eq_true]
+  exact exists_uniqueSortedDKeys (fun k => dmatch k d.dt want = true) (fun a b hab => by simp only [hdm a b d.dt want hab]) _
+
+theorem dsErrLoop_spec (total : Nat) (hdm : ∀ k k' dt w, dkeyIdent k = dkeyIdent k' → dmatch k dt w = dmatch k' dt w) :
+    ∀ (l : List DSRec) (supd : Nat) (last : Option DErr), GoodLast last →
+      (dsErrLoop sup dmatch limit keys total l supd last = DErr.ok ↔ ∃ d ∈ l, dsAuthenticates sup dmatch limit keys d = true) ∧
+      (dsErrLoop sup dmatch limit keys total l supd last = DErr.unsupported ↔
+        total ≠ 0 ∧ supd = 0 ∧ ∀ d ∈ l, sup d = false) := by
+  intro l
+  induction l with
+  | nil =>
+    intro supd last hl
+    have hg := goodLast_getD last hl
+    unfold dsErrLoop
+    by_cases ht : total = 0
+    · simp [ht]
+    · by_cases hs : supd = 0
+      · simp [ht, hs]
+      · simp [ht, hs, hg.1, hg.2]
+  | cons d t ih =>
+    intro supd last hl
+    unfold dsErrLoop
+    by_cases hs : sup d = true
+    · simp only [hs, Bool.not_true, Bool.false_eq_true, if_false]
+      have hk : GoodLast (some DErr.missingKSK) := Or.inr (Or.inl rfl)
+      have hm : GoodLast (some DErr.mismatchingDS) := Or.inr (Or.inr rfl)
+      -- in every non-matching branch the loop goes on with supd + 1 and a good lastErr
+      have cont : ∀ last', GoodLast last' → dsAuthenticates sup dmatch limit keys d = false →
+          (dsErrLoop sup dmatch limit keys total t (supd + 1) last' = DErr.ok ↔
+              ∃ x ∈ d :: t, dsAuthenticates sup dmatch limit keys x = true) ∧
+          (dsErrLoop sup dmatch limit keys total t (supd + 1) last' = DErr.unsupported ↔
+              total ≠ 0 ∧ supd = 0 ∧ ∀ x ∈ d :: t, sup x = false) := by
+        intro last' hl' hna
+        obtain ⟨h1, h2⟩ := ih (supd + 1) last' hl'
+        refine ⟨?_, ?_⟩
+        · rw [h1]; simp [hna]
+        · rw [h2]; simp [hs]
+      by_cases hc : (uniqueSortedDKeys (keys.filter (usableDSCandidate limit d))).isEmpty = true
+      · simp only [hc, if_true]
+        apply cont _ hk
+        -- no usable candidate: the DS authenticates nothing
+        have hnil : uniqueSortedDKeys (keys.filter (usableDSCandidate limit d)) = [] := by simpa using hc
+        have hf : keys.filter (usableDSCandidate limit d) = [] := by
+          cases hx : keys.filter (usableDSCandidate limit d) with
+          | nil => rfl
+          | cons a _ =>
+            have := (exists_uniqueSortedDKeys (fun _ => True) (fun _ _ _ => Iff.rfl) (keys.filter (usableDSCandidate limit d))).mpr
+              ⟨a, by rw [hx]; simp, trivial⟩
+            rw [hnil] at this; obtain ⟨_, hk', _⟩ := this; cases hk'
+        unfold dsAuthenticates
+        rw [hf]
+        cases hexDecode d.digest <;> simp
+      · simp only [hc, Bool.false_eq_true, if_false]
+        cases hd : hexDecode d.digest with
+        | none =>
+          simp only
+          apply cont _ hm
+          unfold dsAuthenticates; simp [hd]
+        | some want =>
+          simp only
+          by_cases hw : want.isEmpty = true
+          · simp only [hw, if_true]
+            apply cont _ hm
+            unfold dsAuthenticates; simp [hd, hw]
+          · have hw' : want.isEmpty = false := by simpa using hw
+            simp only [hw', Bool.false_eq_true, if_false]
+            rw [dsAuth_via_sorted sup dmatch limit keys d hdm hs want hd hw']
+            by_cases ha : dsAuthenticates sup dmatch limit keys d = true
+            · simp only [ha, if_true, true_iff, reduceCtorEq, false_iff]
+              refine ⟨⟨d, by simp, ha⟩, ?_⟩
+              intro hx; have := hx.2.2 d (by simp); rw [hs] at this; cases this
+            · have ha' : dsAuthenticates sup dmatch limit keys d = false := by simpa using ha
+              simp only [ha', Bool.false_eq_true, if_false]
+              exact cont _ hm ha'
+    · have hs' : sup d = false := by simpa using hs
+      simp only [hs', Bool.not_false, if_true]
+      obtain ⟨h1, h2⟩ := ih supd last hl
+      have hna : dsAuthenticates sup dmatch limit keys d = false := by unfold dsAuthenticates; simp [hs']
+      refine ⟨?_, ?_⟩
+      · rw [h1]; simp [hna]
+      · rw [h2]; simp [hs']
+end
+
 end SdnsVerif.Lemmas.DnssecPrim
